@@ -166,6 +166,8 @@ pub struct ViolationRec {
     pub case: Value,
     pub fail: Fail,
     pub count: u64,
+    /// position of the witness in the enumeration order (the smallest one seen is kept)
+    pub order: u64,
 }
 
 #[derive(Default)]
@@ -253,6 +255,12 @@ impl Report {
 
     /// Record one executed case.
     pub fn record(&self, section: &str, case_hash: u64, case_json: impl FnOnce() -> Value, out: &CaseOut) {
+        self.record_at(section, case_hash, u64::MAX, case_json, out)
+    }
+
+    /// Like `record`, with the position of the case in the enumeration (simplest first): the
+    /// witness kept for a violation key is the earliest one, independent of thread timing.
+    pub fn record_at(&self, section: &str, case_hash: u64, order: u64, case_json: impl FnOnce() -> Value, out: &CaseOut) {
         self.evaluations.fetch_add(1, Ordering::Relaxed);
         self.steps.fetch_add(out.steps, Ordering::Relaxed);
         match &out.verdict {
@@ -264,10 +272,16 @@ impl Report {
                 let mut v = self.violations.lock().unwrap();
                 if let Some(r) = v.get_mut(&f.key) {
                     r.count += 1;
+                    if order < r.order {
+                        r.order = order;
+                        r.case = case_json();
+                        r.fail = f.clone();
+                        r.section = section.to_string();
+                    }
                 } else if v.len() < 500 {
                     v.insert(
                         f.key.clone(),
-                        ViolationRec { section: section.to_string(), case: case_json(), fail: f.clone(), count: 1 },
+                        ViolationRec { section: section.to_string(), case: case_json(), fail: f.clone(), count: 1, order },
                     );
                 }
             }
@@ -286,7 +300,7 @@ impl Report {
         if let Some(r) = v.get_mut(&fail.key) {
             r.count += 1;
         } else if v.len() < 500 {
-            v.insert(fail.key.clone(), ViolationRec { section: section.to_string(), case, fail, count: 1 });
+            v.insert(fail.key.clone(), ViolationRec { section: section.to_string(), case, fail, count: 1, order: u64::MAX });
         }
     }
 
@@ -444,7 +458,7 @@ fn worker_loop<C: Serialize + Clone + Send + 'static>(
                 return; // the watchdog already reported this case
             }
             let ch = h64(&(section.as_str(), serde_json::to_string(&c).unwrap_or_default()));
-            rep.record(&section, ch, || serde_json::to_value(&c).unwrap_or(Value::Null), &out);
+            rep.record_at(&section, ch, idx, || serde_json::to_value(&c).unwrap_or(Value::Null), &out);
             sh.cases.fetch_add(1, Ordering::Relaxed);
             if out.nontrivial {
                 sh.nontrivial.fetch_add(1, Ordering::Relaxed);
